@@ -33,10 +33,10 @@ REPLAY_PY = os.environ.get('VT_REPLAY_PY', '/venv/bin/python')
 # ----------------------------------------------------------------------------------------
 class Ob:
     """one proof obligation:  kind in eq | le | lt | true ;  meta is JSON-able"""
-    __slots__ = ('name', 'kind', 'lhs', 'rhs', 'meta', 'tol', 'method', 'hints', 'replayable', 'timeout_ms', 'assume', 'cuts', 'facts')
+    __slots__ = ('name', 'kind', 'lhs', 'rhs', 'meta', 'tol', 'method', 'hints', 'replayable', 'timeout_ms', 'assume', 'cuts', 'facts', 'scales')
 
     def __init__(self, name, kind, lhs, rhs=None, meta=None, tol=1e-9, method='direct', hints=(), replayable=True,
-                 timeout_ms=None, assume=(), cuts=(), facts=()):
+                 timeout_ms=None, assume=(), cuts=(), facts=(), scales=()):
         self.name = name
         self.kind = kind
         self.lhs = lhs
@@ -49,6 +49,7 @@ class Ob:
         self.timeout_ms = timeout_ms
         self.assume = list(assume)     # extra assumptions local to this obligation (e.g. path condition)
         self.cuts = list(cuts)         # indices into hints: those (swept) hint terms are cut to fresh variables (method 'split')
+        self.scales = list(scales)     # symbolic scale factors: the sweep also proposes proportional nodes t = monomial(scales)*r
         self.facts = list(facts)       # bool terms mentioning the hints: proved first, then kept as constraints on the cut variables
 
     def goal(self):
@@ -139,6 +140,7 @@ class Backend:
         return o
 
     def eq_arrays(self, name, A, Bv, **kw):
+        kw = dict(kw)
         import numpy
         A = numpy.asarray(A, dtype=object)
         Bv = numpy.asarray(Bv, dtype=object)
@@ -293,7 +295,8 @@ def run_config_symbolic(pid, cfg, tier, seed):
                     md = max([h.depth for h in h0], default=0) + 1
                     okfacts = [f for f in facts if prove.valid(f, Ag, 20000).verdict == 'proved']
                     g1, log1 = prove.sweep(goals, Ag, B.sampler(seed), timeout_ms=min(timeout_ms, 3000), hints=h0,
-                                           budget_s=max(budget, cfg.get('stage1_budget_s', 150)), max_depth=md, protect=okfacts)
+                                           budget_s=max(budget, cfg.get('stage1_budget_s', 150)), max_depth=md, protect=okfacts,
+                                           scales=[L(x) for x in o0.scales])
                     sh = log1.pop('swept_hints', h0)
                     okf = log1.pop('swept_protect', okfacts)
                     mp = {}
@@ -307,7 +310,7 @@ def run_config_symbolic(pid, cfg, tier, seed):
                     cutall = tm.subst(g1 + okf + Ag, mp)
                     g2, f2, A2 = cutall[:len(goals)], cutall[len(goals):len(goals) + len(okf)], cutall[len(goals) + len(okf):]
                     A2 = [a for a in A2 + f2 if a is not tm.TRUE]
-                    r3, log3 = prove.sweep(g2, A2, B.sampler(seed), timeout_ms=2000, budget_s=budget)
+                    r3, log3 = prove.sweep(g2, A2, B.sampler(seed), timeout_ms=2000, budget_s=budget, scales=[L(x) for x in o0.scales])
                     log3.pop('swept_hints', None)
                     log3.pop('swept_protect', None)
                     rec.setdefault('sweeps', []).append({'stage1': log1, 'cuts': len(mp), 'facts_proved': len(okf),
@@ -315,7 +318,8 @@ def run_config_symbolic(pid, cfg, tier, seed):
                     for o, g in zip(obs_g, r3):
                         swept[id(o)] = (g, A2)
                     continue
-                newg, log = prove.sweep(goals, Ag, B.sampler(seed), timeout_ms=min(timeout_ms, 3000), hints=hints, budget_s=budget)
+                newg, log = prove.sweep(goals, Ag, B.sampler(seed), timeout_ms=min(timeout_ms, 3000), hints=hints, budget_s=budget,
+                                        scales=[L(x) for x in obs_g[0].scales])
                 log.pop('swept_hints', None)
                 log.pop('swept_protect', None)
                 rec.setdefault('sweeps', []).append(log)
